@@ -57,6 +57,9 @@ def ref_call(o, table):
     beh = table.get(name)
     if beh is None:
         return dict(code=-32601, exact=None), []
+    if beh['kind'] == 'internal':
+        # handling fails before the method could be called (broken view constructor / validator / signature): internal error
+        return dict(code=-32603, exact=None, noleak=True), []
     bound = bind_ref(beh['params'], o.get('params'))
     if bound is None:
         return dict(code=-32602, exact=None), []
